@@ -1,4 +1,173 @@
-import CosetModel.Api
+/-
+  C17 — registry names and integers correspond one-to-one with the IANA assignments.
+  The tables `Coset.Gen.*` are regenerated from /repo/src/iana/mod.rs on every run; every statement below is
+  re-proved against them.
+-/
+import CosetModel.Label
+import CosetRef.Iana
 namespace Coset.Props.C17
+open Coset
+
+/-! ### the source's tables equal the pinned reference (name by name, value by value) -/
+theorem matches_reference_HeaderParameter : Gen.HeaderParameter = Ref.HeaderParameter := by decide
+theorem matches_reference_HeaderAlgorithmParameter : Gen.HeaderAlgorithmParameter = Ref.HeaderAlgorithmParameter := by decide
+theorem matches_reference_Algorithm : Gen.Algorithm = Ref.Algorithm := by decide +kernel
+theorem matches_reference_KeyParameter : Gen.KeyParameter = Ref.KeyParameter := by decide
+theorem matches_reference_KeyType : Gen.KeyType = Ref.KeyType := by decide
+theorem matches_reference_Ec2KeyParameter : Gen.Ec2KeyParameter = Ref.Ec2KeyParameter := by decide
+theorem matches_reference_OkpKeyParameter : Gen.OkpKeyParameter = Ref.OkpKeyParameter := by decide
+theorem matches_reference_RsaKeyParameter : Gen.RsaKeyParameter = Ref.RsaKeyParameter := by decide
+theorem matches_reference_SymmetricKeyParameter : Gen.SymmetricKeyParameter = Ref.SymmetricKeyParameter := by decide
+theorem matches_reference_HssLmsKeyParameter : Gen.HssLmsKeyParameter = Ref.HssLmsKeyParameter := by decide
+theorem matches_reference_WalnutDsaKeyParameter : Gen.WalnutDsaKeyParameter = Ref.WalnutDsaKeyParameter := by decide
+theorem matches_reference_EllipticCurve : Gen.EllipticCurve = Ref.EllipticCurve := by decide
+theorem matches_reference_KeyOperation : Gen.KeyOperation = Ref.KeyOperation := by decide
+theorem matches_reference_CborTag : Gen.CborTag = Ref.CborTag := by decide
+theorem matches_reference_CoapContentFormat : Gen.CoapContentFormat = Ref.CoapContentFormat := by decide +kernel
+theorem matches_reference_CwtClaimName : Gen.CwtClaimName = Ref.CwtClaimName := by decide
+
+/-- the sixteen registries, and only they. -/
+theorem registries_complete : Gen.registries.map (·.1) =
+    ["HeaderParameter", "HeaderAlgorithmParameter", "Algorithm", "KeyParameter", "OkpKeyParameter", "Ec2KeyParameter",
+     "RsaKeyParameter", "SymmetricKeyParameter", "HssLmsKeyParameter", "WalnutDsaKeyParameter", "KeyType", "EllipticCurve",
+     "KeyOperation", "CborTag", "CoapContentFormat", "CwtClaimName"] := by decide
+
+/-! ### no two names share an integer; no name occurs twice -/
+def valuesNodup (R : Registry) : Bool := decide ((R.rows.map (·.2)).Nodup)
+def namesNodup (R : Registry) : Bool := decide ((R.rows.map (·.1)).Nodup)
+theorem values_nodup : Reg.all.all valuesNodup = true := by decide +kernel
+theorem names_nodup : Reg.all.all namesNodup = true := by decide +kernel
+
+/-! ### conversions are mutually inverse (generic lemmas, then instantiated with `values_nodup`) -/
+theorem findIdx?_eq_some_iff_getElem {α : Type} (p : α → Bool) (l : List α) (k : Nat) (h : l.findIdx? p = some k) :
+    ∃ hk : k < l.length, p l[k] = true := by
+  rw [List.findIdx?_eq_some_iff_getElem] at h
+  exact ⟨h.1, h.2.1⟩
+
+/-- `from_i64 i = Some x → x.to_i64() = i` -/
+theorem to_from (R : Registry) (i : Int) (k : Nat) (h : R.fromI64 i = some k) : R.toI64 k = i := by
+  unfold Registry.fromI64 at h
+  obtain ⟨hk, hp⟩ := findIdx?_eq_some_iff_getElem _ _ _ h
+  unfold Registry.toI64
+  simp [List.getElem?_eq_getElem hk]
+  simpa using hp
+
+/-- `from_i64 (x.to_i64()) = Some x`, for every variant `x` of a registry whose values are pairwise distinct. -/
+theorem from_to (R : Registry) (hnd : (R.rows.map (·.2)).Nodup) (k : Nat) (hk : k < R.rows.length) :
+    R.fromI64 (R.toI64 k) = some k := by
+  unfold Registry.fromI64 Registry.toI64
+  simp only [List.getElem?_eq_getElem hk, Option.map_some, Option.getD_some]
+  rw [List.findIdx?_eq_some_iff_getElem]
+  refine ⟨hk, by simp, ?_⟩
+  intro j hj
+  simp only [beq_iff_eq]
+  intro heq
+  have hjk : j < R.rows.length := by omega
+  have h1 : (R.rows.map (·.2))[j]'(by simpa using hjk) = (R.rows.map (·.2))[k]'(by simpa using hk) := by simpa using heq
+  have := (List.getElem_inj hnd).mp h1
+  omega
+
+theorem all_values_nodup (R : Registry) (hR : R ∈ Reg.all) : (R.rows.map (·.2)).Nodup := by
+  have h := values_nodup
+  rw [List.all_eq_true] at h
+  simpa [valuesNodup] using h R hR
+
+/-- C17 (inverse), every registry, every variant, every integer. -/
+theorem inverse (R : Registry) (hR : R ∈ Reg.all) :
+    (∀ k, k < R.rows.length → R.fromI64 (R.toI64 k) = some k) ∧ (∀ i k, R.fromI64 i = some k → R.toI64 k = i) :=
+  ⟨fun k hk => from_to R (all_values_nodup R hR) k hk, fun i k h => to_from R i k h⟩
+
+/-- integer-to-name is injective: two integers mapping to the same name are equal. -/
+theorem fromI64_injective (R : Registry) (i j : Int) (k : Nat) (hi : R.fromI64 i = some k) (hj : R.fromI64 j = some k) : i = j := by
+  rw [← to_from R i k hi, ← to_from R j k hj]
+
+/-! ### private use: exactly the integers below -65536, in exactly the four registries; no registered value is private -/
+theorem private_registries :
+    (Reg.all.filter (·.isPrivate.isSome)).map (·.name) = Ref.privateRegistries := by decide
+
+theorem is_private_iff (i : Int) :
+    (Reg.headerParameter.private? i = true ↔ i < -65536) ∧ (Reg.algorithm.private? i = true ↔ i < -65536) ∧
+    (Reg.ellipticCurve.private? i = true ↔ i < -65536) ∧ (Reg.cwtClaimName.private? i = true ↔ i < -65536) := by
+  simp [Registry.private?, Reg.headerParameter, Reg.algorithm, Reg.ellipticCurve, Reg.cwtClaimName,
+    Gen.HeaderParameter_isPrivate, Gen.Algorithm_isPrivate, Gen.EllipticCurve_isPrivate, Gen.CwtClaimName_isPrivate]
+
+def noRegisteredPrivate (R : Registry) : Bool := R.rows.all fun p => !(R.private? p.2)
+theorem no_registered_value_is_private : Reg.all.all noRegisteredPrivate = true := by decide +kernel
+
+/-! ### classification of label integers (decoding `RegisteredLabel` / `RegisteredLabelWithPrivate`) -/
+theorem classify_registered (R : Registry) (i : Int) (hi : i64Min ≤ i ∧ i ≤ i64Max) :
+    (∀ k, R.fromI64 i = some k → RegLabel.fromValue R (.int i) = .ok (.assigned k)) ∧
+    (R.fromI64 i = none → RegLabel.fromValue R (.int i) = .err .unregisteredIana) := by
+  constructor
+  · intro k hk; simp [RegLabel.fromValue, narrowI64, hi, hk]
+  · intro hk; simp [RegLabel.fromValue, narrowI64, hi, hk]
+
+theorem classify_with_private (R : Registry) (i : Int) (hi : i64Min ≤ i ∧ i ≤ i64Max) :
+    (∀ k, R.fromI64 i = some k → RegLabelPriv.fromValue R (.int i) = .ok (.assigned k)) ∧
+    (R.fromI64 i = none → R.private? i = true → RegLabelPriv.fromValue R (.int i) = .ok (.privateUse i)) ∧
+    (R.fromI64 i = none → R.private? i = false → RegLabelPriv.fromValue R (.int i) = .err .unregisteredIanaNonPrivate) := by
+  refine ⟨?_, ?_, ?_⟩
+  · intro k hk; simp [RegLabelPriv.fromValue, narrowI64, hi, hk]
+  · intro hk hp; simp [RegLabelPriv.fromValue, narrowI64, hi, hk, hp]
+  · intro hk hp; simp [RegLabelPriv.fromValue, narrowI64, hi, hk, hp]
+
+/-- out of i64 range: rejected as out of range before any registry lookup (see also C15). -/
+theorem classify_out_of_range (R : Registry) (i : Int) (hi : ¬ (i64Min ≤ i ∧ i ≤ i64Max)) :
+    RegLabel.fromValue R (.int i) = .err .outOfRange ∧ RegLabelPriv.fromValue R (.int i) = .err .outOfRange := by
+  simp [RegLabel.fromValue, RegLabelPriv.fromValue, narrowI64, hi]
+
+theorem classify_text (R : Registry) (t : Bytes) :
+    RegLabel.fromValue R (.text t) = .ok (.text t) ∧ RegLabelPriv.fromValue R (.text t) = .ok (.text t) := ⟨rfl, rfl⟩
+
+/-- a decoded `Assigned` label re-encodes to the integer it was decoded from. -/
+theorem classify_roundtrip (R : Registry) (i : Int) (k : Nat) (h : RegLabel.fromValue R (.int i) = .ok (.assigned k)) :
+    RegLabel.toValue R (.assigned k) = .ok (.int i) := by
+  unfold RegLabel.fromValue at h
+  cases hn : narrowI64 i with
+  | ok n =>
+    simp only [hn] at h
+    have hni : n = i := by unfold narrowI64 at hn; split at hn <;> simp_all
+    cases hf : R.fromI64 n with
+    | none => simp [hf] at h
+    | some k' =>
+      simp [hf] at h; subst h; subst hni
+      simp [RegLabel.toValue, to_from R n k' hf]
+  | err e => simp [hn] at h
+  | panic p => simp [hn] at h
+
+/-- non-vacuity: ES256 is -7 both ways; -65537 is private for algorithms and not registered; -65536 is neither. -/
+example : Reg.algorithm.fromI64 (-7) = some Gen.idx_Algorithm_ES256 ∧ Reg.algorithm.toI64 Gen.idx_Algorithm_ES256 = -7 := by decide
+example : RegLabelPriv.fromValue Reg.algorithm (.int (-65537)) = .ok (.privateUse (-65537)) := by decide
+example : RegLabelPriv.fromValue Reg.algorithm (.int (-65536)) = .err .unregisteredIanaNonPrivate := by decide
+
+#print axioms matches_reference_Algorithm
+#print axioms matches_reference_HeaderParameter
+#print axioms matches_reference_HeaderAlgorithmParameter
+#print axioms matches_reference_KeyParameter
+#print axioms matches_reference_KeyType
+#print axioms matches_reference_Ec2KeyParameter
+#print axioms matches_reference_OkpKeyParameter
+#print axioms matches_reference_RsaKeyParameter
+#print axioms matches_reference_SymmetricKeyParameter
+#print axioms matches_reference_HssLmsKeyParameter
+#print axioms matches_reference_WalnutDsaKeyParameter
+#print axioms matches_reference_EllipticCurve
+#print axioms matches_reference_KeyOperation
+#print axioms matches_reference_CborTag
+#print axioms matches_reference_CoapContentFormat
+#print axioms matches_reference_CwtClaimName
+#print axioms registries_complete
+#print axioms values_nodup
+#print axioms names_nodup
+#print axioms inverse
+#print axioms fromI64_injective
+#print axioms private_registries
+#print axioms is_private_iff
+#print axioms no_registered_value_is_private
+#print axioms classify_registered
+#print axioms classify_with_private
+#print axioms classify_out_of_range
+#print axioms classify_text
+#print axioms classify_roundtrip
 
 end Coset.Props.C17
